@@ -221,7 +221,9 @@ pub fn generate(g: &mut Gen, thorough: bool) {
     // 2b. ill-formed sub-commands are rejected at instantiation, well-formed ones accepted
     let mut shapes: Vec<(bool, String)> = vec![];
     for key in ["push", "pop", "flip"] {
-        for bad in ["0", "5", "-1", "1.5", "2.25", "3.999", "1:30", "0.5", "4.0001", "1,2,2.5", "1,5", "0,1", "1e0.5", "NaN", "inf", "-0.5", "1,2,3,4,4.5", "0:30"] {
+        for bad in ["0", "5", "-1", "1.5", "2.25", "3.999", "1:30", "0.5", "4.0001", "1,2,2.5", "1,5", "0,1", "1e0.5", "NaN", "inf", "-0.5", "1,2,3,4,4.5", "0:30",
+            // an element that is no number (or nothing) spoils the list: it is not skipped
+            "1,x", "2,,1", "foo,1", "1,", ",1", "1,2,x,3"] {
             shapes.push((false, format!("stack {key}={bad}")));
         }
         for good in ["1", "4", "1,2,3,4", "4,4,4", "2.0", "1e0", "1,1,1,1,1"] {
@@ -229,7 +231,7 @@ pub fn generate(g: &mut Gen, thorough: bool) {
         }
     }
     for key in ["roll", "unroll"] {
-        for bad in ["2", "1.5,1", "3,0.5", "2,2", "2,3", "3,-3", "1,2,3", "-2.5,1", "NaN,1", "3,NaN", "3,3", "8,-8", "1,1", "1,-1", "0,0"] {
+        for bad in ["2", "1.5,1", "3,0.5", "2,2", "2,3", "3,-3", "1,2,3", "-2.5,1", "NaN,1", "3,NaN", "3,3", "8,-8", "1,1", "1,-1", "0,0", "2,1,", "2,x", "x,1", "3,,1"] {
             shapes.push((false, format!("stack {key}={bad}")));
         }
         for good in ["3,2", "3,-2", "8,7", "2,1", "2,0", "3.0,1.0"] {
